@@ -9,6 +9,7 @@ CONSTANTS
   BatchSizes = {1, 2}
   PerIns = 1
   PerFl = 1
+  LateTables = {}
   LockScope = "code"
   SigMode = "none"
 VIEW View
